@@ -189,7 +189,19 @@ def run_shard(sh, ctx):
 						else:
 							args += ['-k', k, '-p', prefix]
 					cmd = pre + ['dist', '-o', out, '--no-progress'] + args + qargs + rargs + (['-c', cores] if cores else [])
-					code, so, se, exc = clidrv.run_inproc(cmd)
+					run_cwd = None
+					if 'listfile' in (qch, rch) and trial == 0:
+						# list entries are relative to --qdir / --rdir: same-named files with OTHER genomes in the working directory are decoys
+						run_cwd = base / 'decoy_cwd'
+						run_cwd.mkdir(exist_ok=True)
+						from vf.oracles.fasta import write_fasta as _wfd
+						for i_ in set((qidx if qch == 'listfile' else []) + (ridx if rch == 'listfile' else [])):
+							pd = run_cwd / G.items[i_]['name']
+							pd.parent.mkdir(parents=True, exist_ok=True)
+							if not pd.exists() and not pd.is_symlink():
+								_wfd(pd, [bytes(rng.choice(b'ACGT') for _ in range(rng.randint(300, 900)))], gz=G.items[i_]['name'].endswith('.gz'))
+						ctx.count('listfile_runs_with_same_named_decoys_in_cwd')
+					code, so, se, exc = clidrv.run_inproc(cmd, cwd=run_cwd)
 					w_ = dict(query_channel=qch, ref_channel=rch, k=eff[0], prefix=eff[1], explicit=explicit, cores=cores, qlabels=qlabels[:8], rlabels=rlabels[:8],
 					          args=[str(a) for a in cmd][:40], stderr=se[-200:], exc=exc)
 					ctx.case(('dist', qch, rch, eff, explicit, cores, [G.items[i]['name'] for i in qidx], [str(x) for x in rlabels]), nontrivial=True,
